@@ -202,6 +202,7 @@ def _op4_encodings(r, logical, n_enc, force=None):
         else:
             e["fmt"] = ASCII_FORMATS[(kk >> 9) % len(ASCII_FORMATS)]
             e["i16"] = bool((kk >> 14) % 5 == 0)
+            e["fmt_mixed"] = bool((kk >> 19) % 2 == 0)
         e["closing"] = [1.0, 2 ** 0.5][(kk >> 17) % 2]
         encs.append(e)
     return encs
@@ -212,7 +213,14 @@ def _build_op4(r, logical, names, forms, enc):
     import numpy as np
     from vf.oracles import op4_codec as c4
     mats, expect = [], []
-    for (A, d), nm, form in zip(logical, names, forms):
+    fmt0 = enc.get("fmt")
+    for jmat, ((A, d), nm, form) in enumerate(zip(logical, names, forms)):
+        if fmt0 is not None and enc.get("fmt_mixed"):
+            # every matrix announces its own number format (a writer switches to wider
+            # fields only where needed; some headers announce none): nothing decoded from
+            # one header may be used for the next matrix
+            enc = dict(enc, fmt=ASCII_FORMATS[(ASCII_FORMATS.index(fmt0) + 5 * jmat)
+                                              % len(ASCII_FORMATS)])
         cplx = np.iscomplexobj(A)
         mtype = (3 if cplx else 1) if enc["single"] else (4 if cplx else 2)
         layout = enc["layout"]
